@@ -817,8 +817,15 @@ def cache_stream(ctx, a, L, rng, case_id, S, viol):
                     failed_before = True
                 except Exception as e:     # noqa
                     out.append('X:' + type(e).__name__)
-            dq = ','.join(str(index[k]) for k in d._cached_keys)
-            cached = ','.join(str(x) for x in sorted(index[k] for k in d._cache))
+            foreign = [k for k in list(d._cached_keys) + list(d._cache) if k not in index]
+            if foreign:
+                viol('the pointer cache of a freshly opened on-disk annotation holds keys it was '
+                     'never asked for (state shared with another annotation object)',
+                     {'foreign_keys': sorted(set(foreign))[:5], 'dict': which,
+                      'history': [name(j) for j in hist]})
+            dq = ','.join(str(index.get(k, 'F')) for k in d._cached_keys)
+            cached = ','.join(str(x) for x in sorted(index[k] for k in d._cache if k in index)) \
+                + (',F' if any(k not in index for k in d._cache) else '')
             real = ','.join(out) + '|' + dq + '|' + cached
             S['cache'].append((f'C11\tcache\t{size}\t{nv}\t{",".join(map(str, hist))}', real,
                                (case_id, which, [name(j) for j in hist], size)))
